@@ -5,6 +5,7 @@ import itertools
 
 import pymbolic.primitives as p
 
+from ..c16_bridge import ConvertStream, FromStream, OrderStream, ReplacementStream
 from ..core import Failure, Prop, Stream
 from ..oracles import acnorm
 from ..sexp import A, dumps, expr_to_sx, loads, sx_shrinks, sx_to_expr
@@ -253,6 +254,16 @@ def check_records(pl, recs):
                 return Failure("unifier-leftover-drops-neutral-operand", detail, pl)
             if acnorm.ac_key(got_tree, 2) == acnorm.ac_key(tgt, 2):
                 return Failure("unifier-product-leftover-zero-collapse", detail, pl)
+            # two known deviations in one record: a 1-tuple index unpacked AND a neutral operand
+            # dropped / an identity bound / a zero factor collapsing the share
+            if acnorm.ac_key(got_tree, 1, True) == acnorm.ac_key(tgt, 1, True):
+                n_got, n_want = acnorm.nodes(acnorm.norm(got_tree)), acnorm.nodes(acnorm.norm(tgt))
+                return Failure("unifier-empty-leftover-binds-identity" if n_got > n_want
+                               else "unifier-leftover-drops-neutral-operand",
+                               detail + " (together with a 1-tuple index unpacked)", pl)
+            if acnorm.ac_key(got_tree, 2, True) == acnorm.ac_key(tgt, 2, True):
+                return Failure("unifier-product-leftover-zero-collapse",
+                               detail + " (together with a 1-tuple index unpacked)", pl)
             return Failure("unifier-instantiation-differs", detail, pl)
     return None
 
@@ -745,9 +756,35 @@ def probes():
                     res == f(p.Variable("R"), 3), f"f(g(a)**3) with g(w_) -> R gives {res!r}"))
     except Exception as ex:
         out.append(("matchpy-replace-inside-arguments-splices-operands", False, f"raises {ex!r}"))
+    try:
+        import multiset
+        got = []
+
+        def cb(**kw):
+            got.append(kw)
+            return p.Variable("R")
+        from pymbolic.interop.matchpy.tofrom import ToFromReplacement
+        T, F = ToMatchpyExpressionMapper(), FromMatchpyExpressionMapper()
+        ms = multiset.Multiset()
+        ms.add(m.Variable(m.Id("a"), variable_name="q"), 2)
+        ms.add(T(a), 1)
+        ToFromReplacement(cb, T, F)(s_=ms)
+        out.append(("matchpy-replacement-multiset-keys-differ-only-by-variable-name",
+                    dict(got[0]["s_"].items()) == {a: 1},
+                    f"captured {{a (named q): 2, a: 1}}, the callback received {got[0]['s_']!r}"))
+    except Exception as ex:
+        out.append(("matchpy-replacement-multiset-keys-differ-only-by-variable-name", False,
+                    f"raises {ex!r}"))
     return out
 
 # }}}
+
+
+def extract(ctx=None):
+    """T-gen: the flag / arity table of the bridge's operation classes, regenerated from the live
+    classes into lean/PV/Generated/MatchpyOps.lean"""
+    from extract.matchpy_ops import extract_matchpy
+    return extract_matchpy(ctx)
 
 
 PROP = Prop(
@@ -765,25 +802,50 @@ PROP = Prop(
         "PV.C16.unify_value_partial":
             "same guards; the instantiated pattern and the target have the same value in every "
             "field of characteristic 0",
+        "PV.C16.roundtrip_exact_partial":
+            "the matchpy round trip returns the tree unchanged under the decidable hypothesis "
+            "`bridgeNormal` (no nested application of an operator declared associative, operands of "
+            "commutative operators in list.sort() order, tuple indices, no wildcards); the excluded "
+            "shapes are witnessed by roundtrip_*_cex; roundtrip_equiv / roundtrip_value hold for "
+            "every convertible wildcard-free tree",
+        "PV.C16.logical_flags_den_partial":
+            "for the evaluator meaning `den` the commutative / associative flags on LogicalOr / "
+            "LogicalAnd are sound when every operand evaluates to a value with a truth value "
+            "(computable hypothesis `truths env cs = ok _`); any / all short-circuit, so an operand "
+            "that raises makes the value order-dependent (logical_commutative_den_cex)",
+        "PV.C16.replacement_receives_all_partial":
+            "ToFromReplacement hands every captured operand to the callback with its multiplicity "
+            "when the images of the keys of the captured Multiset are pairwise different "
+            "(decidable `pairwiseNe`); otherwise the dict comprehension overwrites a count "
+            "(replacement_multiset_overwrite_cex, known finding)",
     },
-    streams=[UnifyStream(), SmallACStream(), MatchpyStream()],
+    streams=[UnifyStream(), SmallACStream(), MatchpyStream(), ConvertStream(), FromStream(),
+             OrderStream(), ReplacementStream()],
     probes=[probes],
+    extractors=[extract],
     trusted_base=[
         "Lean 4.33 kernel; axioms propext, Classical.choice, Quot.sound only",
         "harness serialisation; Expr.pyEq as the model of Python == (C01)",
         "flattened_sum / flattened_product as modelled in lean/PV/Model/Ops.lean (C03)",
-        "matchpy's matcher and its Operation machinery (external runtime: only observed)",
+        "matchpy's matcher (match / match_anywhere / replace_all: external runtime, only observed); "
+        "its Operation metaclass (flatten / one-identity / sort) and CPython 3.12 list.sort for "
+        "fewer than 64 elements are modelled (mk, pySort) and tied by the matchpy-order stream",
     ],
     assumptions=[
         "model fragment: int/bool constants, variables, Sum, Product, Quotient, FloorDiv, Remainder, "
         "Power, shifts, BitwiseNot, LogicalNot, Comparison, If, Call, Subscript, Lookup; targets with "
         "at most 8 operands per sum / product (CPython small-int set order); elsewhere the model "
         "abstains and only the oracle speaks",
-        "the whole matchpy bridge is checked by the independent oracles only (no Lean theorem: "
-        "matchpy's matcher is an external runtime)",
+        "matchpy bridge: the model covers the operation classes and their flags (table regenerated "
+        "from the live classes), __lt__ / __eq__ / __repr__ of the terms, matchpy's constructor, "
+        "ToMatchpyExpressionMapper, FromMatchpyExpressionMapper, ToFromReplacement and the "
+        "substitution conversion of match; exact for plain-ASCII names, finite floats and fewer than "
+        "64 operands per node, elsewhere the model abstains; match / match_anywhere / replace_all "
+        "results are checked by the independent oracles only (matchpy's matcher is an external "
+        "runtime)",
     ],
-    level_text='Lean theorems about a model of UnidirectionalUnifier (unify_map, records with lmap/rmap, all structural rules, map_commut_assoc with candidate pairing and leftover partitioning), unbounded in tree size and arity: on ALL inputs every record binds only declared variables and each of them once; on all inputs outside five explicitly excluded shapes (decidable guards) every record binds every pattern variable and instantiates the pattern to the target up to reordering / regrouping of sums and products (an inductive congruence with a proved-sound normal-form decision procedure). Each excluded shape is proved to violate the law by a concrete witness and is a known finding replayed on the code. Completeness: if the target is the pattern under a renaming that is injective on its variables and fixes the non-candidates, a record is returned and one of the records is the renaming (full strength on the fragment, including degenerate sums). AC-equal trees have equal values in every field of characteristic 0. The model is tied to the code by exact comparison of the record lists (order, binding order) and of the per-record verdicts (Lean acEquiv vs an independent Python AC normaliser) on ~4k cases per quick run; "guards imply all verdicts true" and renaming completeness are also checked on the real records. The matchpy bridge (round trip, match, match_anywhere, replace_all with dot/star wildcards) is checked by independent oracles only.',
-    level_note='Trusted: Lean kernel; the harness; Expr.pyEq for Python ==; matchpy is an external runtime (its matcher is not modelled). The instantiation law is FALSE on the current tree in five shapes (empty leftover bound to 0/1, neutral leftover operands dropped, zero factor collapsing a product share, empty Sum/Product pattern resetting the records, 1-tuple subscript index unpacked) and for the bridge in two (nested associative operators flattened by matchpy; replace_all below call arguments / subscript indices splices operands): all seven are known findings with minimal inputs. Crashes are not counted as violations (match / match_anywhere raise on every star wildcard; Min/Max/bitwise/logical patterns raise in generate_permutations(range(n))).',
-    technique='Lean 4 mutual-induction soundness proof of the unifier model w.r.t. an inductive AC congruence + invariant-based refutations + differential correspondence (records and verdicts) + independent AC-normaliser oracles for the unifier and the matchpy bridge',
+    level_text='Lean theorems about a model of UnidirectionalUnifier (unify_map, records with lmap/rmap, all structural rules, map_commut_assoc with candidate pairing and leftover partitioning), unbounded in tree size and arity: on ALL inputs every record binds only declared variables and each of them once; on all inputs outside five explicitly excluded shapes (decidable guards) every record binds every pattern variable and instantiates the pattern to the target up to reordering / regrouping of sums and products (an inductive congruence with a proved-sound normal-form decision procedure). Each excluded shape is proved to violate the law by a concrete witness and is a known finding replayed on the code. Completeness: if the target is the pattern under a renaming that is injective on its variables and fixes the non-candidates, a record is returned and one of the records is the renaming (full strength on the fragment, including degenerate sums). AC-equal trees have equal values in every field of characteristic 0. The model is tied to the code by exact comparison of the record lists (order, binding order) and of the per-record verdicts (Lean acEquiv vs an independent Python AC normaliser) on ~4k cases per quick run; "guards imply all verdicts true" and renaming completeness are also checked on the real records. Matchpy bridge: a Lean model of the term classes of the bridge (flag / arity table regenerated from the live classes on every run and compared by `decide`), of the constructor of matchpy (flatten, sort with the list.sort of CPython on the non-transitive `<`), of both mappers and of ToFromReplacement; theorems: exactly which trees convert; the conversion round trip returns the tree unchanged on the decidable fragment `bridgeNormal`, and for EVERY convertible wildcard-free tree returns a tree equal up to operand order of the operators declared commutative, merging of nested applications of operators declared associative and tuple-writing of indices, with the same value in every field of characteristic 0; every class declared commutative / associative stands for an n-ary node whose evalC value is invariant under permutation / regrouping (no class is declared one-identity), and the constructor of matchpy preserves the value; ToFromReplacement hands every captured operand to the callback with its multiplicity when the images of the captured keys are pairwise different, which is proved for every Multiset of pairwise different well-formed name-free terms, i.e. for everything captured from a converted subject (fromM reflects ==). Tied to the code by ~9k structural comparisons per quick run (terms printed structurally). match / match_anywhere / replace_all results (the matcher of matchpy) are checked by independent oracles only.',
+    level_note='Trusted: Lean kernel; the harness; Expr.pyEq for Python ==; matchpy is an external runtime (its matcher is not modelled). The instantiation law is FALSE on the current tree in five shapes (empty leftover bound to 0/1, neutral leftover operands dropped, zero factor collapsing a product share, empty Sum/Product pattern resetting the records, 1-tuple subscript index unpacked) and for the bridge in three (nested associative operators flattened by matchpy; replace_all below call arguments / subscript indices splices operands; ToFromReplacement overwrites the count of Multiset keys that differ only in a variable_name): all eight are known findings with minimal inputs. Crashes are not counted as violations (match / match_anywhere raise on every star wildcard; Min/Max/bitwise/logical patterns raise in generate_permutations(range(n))).',
+    technique='Lean 4 mutual-induction soundness proof of the unifier model w.r.t. an inductive AC congruence + invariant-based refutations + differential correspondence (records and verdicts) + independent AC-normaliser oracles for the unifier and the matchpy bridge + regenerated class table (T-gen) and structural term correspondence for the bridge model',
     design_ref="DESIGN.md §4 C16",
 )
